@@ -45,20 +45,20 @@ def gen(rng):
             t = v + '/.Trash/%d' % uid
             for j in range(rng.randint(1, 2)):
                 k += 1
-                loc = v + '/docs/shared%d' % k
+                loc = L['work'][v] + '/shared%d' % k
                 G.add_trashed(steps, t, 'shared%d' % k, TG.pct(loc[len(v) + 1:]), '2020-02-0%dT01:02:03' % (k % 9 + 1), rng.choice(['file', 'dir']), tag='s%d' % k)
             if rng.random() < 0.3:
                 steps.append(['f', t + '/files/orph%d' % k, 'o', 0o644])
         if L['trash'][v]['alt'] == 'dir':
             k += 1
-            loc = v + '/docs/alt%d' % k
+            loc = L['work'][v] + '/alt%d' % k
             G.add_trashed(steps, v + '/.Trash-%d' % uid, 'alt%d' % k, TG.pct(loc[len(v) + 1:]), '2020-03-01T01:02:03', 'file', tag='a%d' % k)
-        steps.append(['f', v + '/docs/victim', 'to be trashed', 0o644])
+        steps.append(['f', L['work'][v] + '/victim', 'to be trashed', 0o644])
     G.add_trashed(steps, G.home_trash_of(L['env']), 'homeent', TG.pct(home + '/w/homeent'), '2020-04-01T01:02:03', 'file', tag='h')
     cmd = rng.choice(['trash-put', 'trash-list', 'trash-restore', 'trash-restore', 'trash-empty', 'trash-empty', 'trash-rm'])
     stdin = ''
     if cmd == 'trash-put':
-        argv = [cmd] + rng.choice([[], ['-v']]) + [rng.choice(L['vols']) + '/docs/victim']
+        argv = [cmd] + rng.choice([[], ['-v']]) + [L['work'][rng.choice(L['vols'])] + '/victim']
     elif cmd == 'trash-list':
         argv = [cmd]
     elif cmd == 'trash-restore':
